@@ -195,7 +195,13 @@ pub fn add_txn(p: &mut Prog, rng: &mut Rng, mix: &Mix, session_mode: bool) {
             let n = rng.range(0, 4) as usize;
             let chunks: Vec<usize> = (0..n).map(|_| *rng.pick(&[1usize, 10, 100, 4000, 8190, 8191, 8192, 8200, 20000])).collect();
             let txn = p.t;
-            p.steps.push(Step::CopyIn { sql: format!("COPY t FROM STDIN /* {} */", t), chunks, fail: kind == "copy_fail", drop_after: None, txn });
+            let mut sql = format!("COPY t FROM STDIN /* {} */", t);
+            if mix.multi_stmt && rng.chance(0.3) {
+                // the message goes on after the COPY: its results follow the copy's completion
+                let t2 = p.tag();
+                sql.push_str(&format!("; SELECT '{}', sim_rows({}), sim_pad({})", t2, rows.max(2), pad));
+            }
+            p.steps.push(Step::CopyIn { sql, chunks, fail: kind == "copy_fail", drop_after: None, txn });
         }
         "stray_copy" => {
             // CopyDone / CopyFail while no COPY is running: the server ignores it and sends
